@@ -518,8 +518,8 @@ for x in [12, 13]:
       symbolic="occupancy of all 13 parent slots", bounds="leaves 12 and 13 occupied, removed leaf %d" % x)
 
 NOT_APPLICABLE.update({
- "C15": "Needs GroupStateRepository over fault-injecting storages with hook-built PriorEpoch / Snapshot values; PriorEpoch embeds the secret tree (BTreeMap) and every probe that touches one BTreeMap insert did not terminate (SecretTree::new inside from_key_schedule: 900 s; out_of_order history: 19.6 GB). Group-level operations are out of reach as for C04. Not attempted beyond reading; the suspected write_to_storage retry defect is recorded in DESIGN.md section 9.5, unconfirmed.",
- "C17": "check_that_subgroup_is_a_subset needs two Group values (each holding proposal-cache maps, secret tree, storage handles); building a Group literal through hooks was not attempted after TreeKem::decap and validate_update_path on a concrete 2-leaf tree already exhausted 19 GB. The suspected node-count comparison is recorded in DESIGN.md section 9.5, unconfirmed.",
+ "C15": "Needs GroupStateRepository over fault-injecting storages with hook-built PriorEpoch / Snapshot values; PriorEpoch embeds the secret tree (BTreeMap) and every probe that touches one BTreeMap insert did not terminate (SecretTree::new inside from_key_schedule: 900 s; out_of_order history: 19.6 GB). Group-level operations are out of reach as for C04. No solver harness exists. The write_to_storage retry defect found while reading was confirmed by an ordinary test and repaired (fix: a4541cb4, DESIGN.md 9.5); the apply_pending_commit loss on storage failure is recorded there as not repaired. Neither is a claim of this framework.",
+ "C17": "check_that_subgroup_is_a_subset needs two Group values (each holding proposal-cache maps, secret tree, storage handles); building a Group literal through hooks was not attempted after TreeKem::decap and validate_update_path on a concrete 2-leaf tree already exhausted 19 GB. The node-count comparison found while reading was confirmed by an ordinary test and repaired (fix: f3dd37b8, DESIGN.md 9.5); that is not a claim of this framework.",
 })
 
 for g in [0, 7]:
